@@ -86,9 +86,8 @@ func (f *frame) callResolved(st *State, ins *ssa.Call, cc *ssa.CallCommon, fnv V
 			// a library constructor returns a new object
 			st.assume(tLe("0", ex.heapTop()))
 			st.assume(tLt(ex.heapTop(), r.T))
-			for _, o := range st.fresh {
-				st.assume(tNe(r.T, o))
-			}
+			st.assume(tEq(r.T, tAdd(ex.frontierOf(st), "1")))
+			st.frontier = r.T
 			st.fresh = append(st.fresh, r.T)
 		}
 		if r, ok := res.(VOpaque); ok {
@@ -322,6 +321,23 @@ func (f *frame) mergeReturns(st *State, base int, rets []retPath, callee *ssa.Fu
 		}
 		st.mem[rg] = merged
 	}
+	{
+		sameF := true
+		for _, r := range rets {
+			if r.st.frontier != rets[0].st.frontier {
+				sameF = false
+			}
+		}
+		if sameF {
+			st.frontier = rets[0].st.frontier
+		} else {
+			fr := ex.decls.fresh("frontier", SInt)
+			for i, r := range rets {
+				st.assume(tImp(conds[i], tEq(fr, ex.frontierOf(r.st))))
+			}
+			st.frontier = fr
+		}
+	}
 	st.fresh = nil
 	seen := map[T]bool{}
 	for _, r := range rets {
@@ -505,6 +521,10 @@ func (f *frame) builtin(st *State, ins *ssa.Call, b *ssa.Builtin, args []Val) Va
 func (f *frame) appendOp(st *State, ins *ssa.Call, s, e VSlice) Val {
 	ex := f.ex
 	f.lockAppend(st, ins, s, e)
+	if s.R.input && ex.mode.Safety && ins != nil {
+		// append writes in place when len < cap: on a view of the caller's buffer that modifies the input
+		f.ob(st, f.ord("frame.input", ins), ins.Pos(), tOr(tEq(s.Len, s.Cap), tEq(e.Len, "0")), "append to a view of an input parameter does not write into the caller's buffer (needs len == cap)")
+	}
 	r := ex.newRegion("app", false, true)
 	sm := st.mem[s.R]
 	em := st.mem[e.R]
@@ -528,10 +548,12 @@ func (f *frame) appendOp(st *State, ins *ssa.Call, s, e VSlice) Val {
 	}
 	nm := ex.freshMem("app", s.Elem)
 	for ci := range nm {
+		// stated over indices of the result slice, so that quantified specifications about the
+		// result (indexed the same way) instantiate them
 		st.assume(tForall("ap_", tImp(tAnd(tLe("0", "ap_"), tLt("ap_", s.Len)),
 			tEq(tSel(nm[ci], tIdx(s.Off, "ap_")), tSel(sm[ci], tIdx(s.Off, "ap_"))))))
-		st.assume(tForall("ap_", tImp(tAnd(tLe("0", "ap_"), tLt("ap_", e.Len)),
-			tEq(tSel(nm[ci], tIdx(tAdd(s.Off, s.Len), "ap_")), tSel(em[ci], tIdx(e.Off, "ap_"))))))
+		st.assume(tForall("ap_", tImp(tAnd(tLe(s.Len, "ap_"), tLt("ap_", nlen)),
+			tEq(tSel(nm[ci], tIdx(s.Off, "ap_")), tSel(em[ci], tIdx(e.Off, tSub("ap_", s.Len)))))))
 	}
 	st.mem[r] = nm
 	return out
@@ -757,6 +779,12 @@ func (f *frame) loopEntry(st *State, li *loopInfo, ls *LoopSpec) bool {
 				f.entryFrame(st, hk, arr)
 			}
 		}
+	}
+	if len(mods.fields) > 0 {
+		// the loop may allocate: the frontier at the loop head is some value not below the one at entry
+		fr := ex.decls.fresh("frontier_lp", SInt)
+		st.assume(tLe(ex.frontierOf(st), fr))
+		st.frontier = fr
 	}
 	if mods.memW {
 		for r := range st.mem {
